@@ -267,10 +267,13 @@ func checkC04(c *ev.Ctx) {
 		}
 	}
 	c.Set("deviation_vectors", len(cases))
+	// (main runs this check in a child process: a crash that gensign.Run cannot recover from - a panic on a goroutine it
+	// started - kills that child and is reported as "the process does not keep running")
 	for i, k := range cases {
 		if c.Expired("deviation vectors") {
 			break
 		}
+		c.Crumb(k)
 		c04Run(c, k)
 		if i%(len(cases)/5+1) == 2 {
 			c.Sample(k)
